@@ -1082,8 +1082,58 @@ class C06(core.Check):
                                    "ops": [["render", 2, 1, 1], ["mut", idx, 0, f, 2], ["render", 2, 1, 1],
                                            ["mut", idx, k, b, 2], ["render", 2, 1, 0], ["render", 2, 0, 0]]}
 
+    @staticmethod
+    def zero_size_child_cases(tier):
+        """Small scope, exhaustive: a child that currently renders with zero columns / zero rows (empty Text, empty Pile)
+        under every decoration and container (one and two levels), rendered, then the child gets content, rendered again
+        (the whole tree and every sub-widget)."""
+        import urwid
+        empties = [["text", 4, 0], ["text", 4, 2], ["pile", []]]
+
+        def wrappers(c):
+            for m in range(5):
+                yield ["padding", 3 * m, 0, c]
+            yield ["padding", 4, 1, c]
+            yield ["attrmap", c]
+            yield ["linebox", 1, c]
+            yield ["wrap", c]
+            yield ["placeholder", c]
+            yield ["pile", [c, ["text", 0, 0]]]
+            yield ["pile", [["text", 0, 0], c]]
+            yield ["columns", 0, [c, ["text", 0, 0]], [1, 0]]
+            yield ["columns", 1, [["text", 0, 0], c], [0, 1]]
+            yield ["columns", 0, [c, ["text", 0, 0]], [0, 0]]
+            yield ["gridflow", 2, 0, 0, [c, ["text", 0, 0]]]
+            yield ["boxadapter", 2, ["filler", 0, c]]
+            yield ["boxadapter", 2, ["listbox", 1, [c, ["text", 0, 0]]]]
+            yield ["boxadapter", 2, ["scrollable", c]]
+            yield ["boxadapter", 2, ["frame", ["listbox", 0, [["text", 0, 0]]], c, 0]]
+            yield ["boxadapter", 2, ["overlay", c, ["solid"]]]
+
+        def is_empty(w):
+            return (type(w) is urwid.Text and w.text == "") or (type(w) is urwid.Pile and not w.contents)
+        for c in empties:
+            trees = list(wrappers(c))
+            if tier != "quick" or c == empties[0]:
+                trees += [t2 for t in wrappers(c) for t2 in wrappers(t)]
+            for tree in trees:
+                try:
+                    ws = walk(build_real(tree))
+                except Exception:       # noqa: BLE001  a combination the constructors refuse
+                    continue
+                idx = next((i for i, w in enumerate(ws) if is_empty(w)), None)
+                if idx is None:
+                    continue
+                grow = [["mut", idx, 0, 1, 2], ["mut", idx, 0, 3, 2]] if c[0] == "text" else [["mut", idx, 2, 0, 2]]
+                for g in grow:
+                    for f in (0, 1):
+                        ops = [["render", 2, f, 1], ["rsub", 2, f, 1, 1], g, ["render", 2, f, 1]]
+                        ops += [["rsub", 2, f, 0, i] for i in range(min(len(ws), 4))]
+                        yield {"kind": "real", "mode": "swap", "tree": tree, "ops": ops}
+
     def cases(self, rng, tier):
         yield from self.contents_edit_cases(tier)
+        yield from self.zero_size_child_cases(tier)
         nbk = 2500 if tier == "quick" else 20000
         for _ in range(nbk):
             yield self.gen_bk(rng)
